@@ -159,6 +159,11 @@ func (l *staticLeaf) match(segment string, _ Params, header http.Header) bool {
 }
 
 func (l *staticLeaf) Static() bool {
+	// The text of a route with an optional segment is not a request path.
+	if l.route.Segments[len(l.route.Segments)-1].Optional {
+		return false
+	}
+
 	ancestor := l.parent
 	for ancestor != nil {
 		if ancestor.getMatchStyle() > matchStyleStatic {
